@@ -8,6 +8,7 @@ package main
 
 import (
 	"fmt"
+	"go/token"
 	"go/types"
 
 	"golang.org/x/tools/go/ssa"
@@ -36,8 +37,14 @@ func chanSend(i *interpreter, ch, v value) {
 	if c.closed {
 		panic(targetPanic{v: rtError("send on closed channel")})
 	}
+	if i.parkedOn[c] {
+		panic(unsupported{"send on a channel a parked goroutine waits for"})
+	}
 	if len(c.buf) >= c.cap && c.cap > 0 {
 		panic(unsupported{"send on full channel (would block)"})
+	}
+	if c.cap == 0 && i.lp.cfg.deferGo {
+		panic(unsupported{"send on unbuffered channel with deferred goroutines"})
 	}
 	// unbuffered channels are treated as rendezvous with a later receiver
 	c.buf = append(c.buf, v)
@@ -48,6 +55,13 @@ func chanRecv(i *interpreter, instr *ssa.UnOp, ch value) value {
 	if c == nil {
 		panic(unsupported{"receive from nil channel (blocks forever)"})
 	}
+	if i.parkedOn[c] {
+		panic(unsupported{"receive from a channel a parked goroutine waits for"})
+	}
+	if len(c.buf) == 0 && !c.closed && i.lp.cfg.deferGo && i.goDepth == 0 {
+		// the main thread would block: let the queued goroutines run first
+		i.runPendingGo()
+	}
 	var v value
 	ok := true
 	if len(c.buf) > 0 {
@@ -57,7 +71,7 @@ func chanRecv(i *interpreter, instr *ssa.UnOp, ch value) value {
 		v = zero(instr.X.Type().Underlying().(*types.Chan).Elem())
 		ok = false
 	} else {
-		panic(unsupported{"receive from empty open channel (would block)"})
+		i.wouldBlock(c, "receive from empty open channel (would block)")
 	}
 	if instr.CommaOk {
 		return tuple{v, ok}
@@ -73,10 +87,71 @@ func chanClose(i *interpreter, ch value) {
 	if c.closed {
 		panic(targetPanic{v: rtError("close of closed channel")})
 	}
+	if i.parkedOn[c] {
+		panic(unsupported{"close of a channel a parked goroutine waits for"})
+	}
 	c.closed = true
 }
 
+// Deferred goroutines ("deferGo"): `go f()` queues f. Queued goroutines run,
+// each to completion or until it blocks, when the harness calls
+// verifRunGoroutines() or when the main thread would block on a receive. So a
+// harness decides (by a solver choice) whether the code after the `go` runs
+// before or after the goroutine. A goroutine that blocks is parked for good;
+// any later operation on the channel it waits for is unsupported (it would
+// have to resume). The main thread blocking with nothing left to run is a
+// deadlock: verifCompletes(f) reports it as false.
+type pendingGo struct {
+	fr   *frame
+	pos  token.Pos
+	fn   value
+	args []value
+}
+
+type goBlocked struct {
+	ch   *channel
+	main bool
+}
+
+func (i *interpreter) runPendingGo() {
+	for len(i.pendingGo) > 0 {
+		g := i.pendingGo[0]
+		i.pendingGo = i.pendingGo[1:]
+		func() {
+			i.goDepth++
+			defer func() {
+				i.goDepth--
+				if p := recover(); p != nil {
+					if gb, ok := p.(goBlocked); ok && !gb.main {
+						if i.parkedOn == nil {
+							i.parkedOn = map[*channel]bool{}
+						}
+						i.parkedOn[gb.ch] = true
+						return
+					}
+					panic(p)
+				}
+			}()
+			call(i, g.fr, g.pos, g.fn, g.args)
+		}()
+	}
+}
+
+func (i *interpreter) wouldBlock(c *channel, what string) {
+	if !i.lp.cfg.deferGo {
+		panic(unsupported{what})
+	}
+	if i.goDepth > 0 {
+		panic(goBlocked{ch: c})
+	}
+	panic(goBlocked{ch: c, main: true})
+}
+
 func goStmt(i *interpreter, fr *frame, instr *ssa.Go, fn value, args []value) {
+	if i.lp.cfg.deferGo {
+		i.pendingGo = append(i.pendingGo, pendingGo{fr: fr, pos: instr.Pos(), fn: fn, args: args})
+		return
+	}
 	if !i.lp.cfg.inlineGo {
 		panic(unsupported{fmt.Sprintf("go statement in %s", fr.fn)})
 	}
